@@ -49,6 +49,10 @@ RunningOK(meat, running) == Ck("RunningTotalIsCumulative", Len(meat) = Len(runni
 
 RetimeSkipOK(m1, m2) == Ck("RetimeSkipOnlyWhenLess", SLt(Total(m2), Total(m1)) \/ ~Le(Total(m1), Total(m2)))
 
+(* what the final round is charged is what the adjustment returned: nothing is taken off (or added) on the way *)
+ChargedOK(b2, f2, cb, cf) == Ck("AdjustedIsCharged", Len(b2) = Len(cb) /\ Len(f2) = Len(cf) /\
+                                 \A i \in 1..Len(b2) : Eq(cb[i], b2[i]) /\ Eq(cf[i], f2[i]))
+
 (* Bump: biofuel b, feed f, demand ceilings maxB, maxF (monthly series); b2, f2 the adjusted series; dom: b <= maxB and f <= maxF held *)
 BumpOK(b, f, maxB, maxF, b2, f2, dom) ==
   /\ Ck("BumpNeverLowers", \A i \in 1..Len(b) : Le(b[i], b2[i]) /\ Le(f[i], f2[i]))
